@@ -45,10 +45,11 @@ def items(tier):
         out.append({"kind": "fbits", "sc": sc, "ec": ec})
     sizes = [(1, 1), (2, 1), (1, 2), (2, 2)] if tier == "quick" else [(1, 1), (2, 1), (1, 2), (2, 2), (3, 2), (2, 3), (3, 3)]
     easy = [(0, 0), (1, 2), (3, 0)] if tier == "quick" else [(0, 0), (1, 2), (3, 0), (0, 4), (2, 2)]
+    huge = [(10 ** 8, 10 ** 8), (0, 10 ** 6)]      # easy samples outnumbering the scored ones by many orders of magnitude
     for sc, ec in CFGS:
         for P, N in sizes:
             for pr in _interleavings(P, N):
-                for kp, kn in easy:
+                for kp, kn in easy + (huge if (P, N) == (2, 2) else []):
                     out.append({"kind": "crossing", "sc": sc, "ec": ec, "P": P, "N": N, "pos_ranks": pr, "kp": kp, "kn": kn})
         for P, N in [(1, 1)]:      # fully symbolic scores (ties allowed): bilinear (solver-unknown) beyond this size
             for kp, kn in easy[:2]:
